@@ -566,6 +566,22 @@ theorem C09_cache_transparent_new_session_partial (enc : τ → ν → Routing.E
     run enc ⟨stmts, true, max, []⟩ steps = Spec.run enc stmts steps :=
   run_safe enc steps _ (by intro p hp; cases hp) hs
 
+/-- …and what that key IS, step by step: from any coherent state (e.g. any state reached by a safe history), a safe use
+    of a statement whose PREPARE answer carries partition-key indexes answers the CompositeType framing (the raw value
+    for one key column) of the encodings of the values AT the key markers, in partition-key order — whether the info
+    came from the cache (hit), was just computed (miss), or an older statement had to be evicted for it. -/
+theorem C09_cache_use_from_metadata (enc : τ → ν → Routing.Enc) (s : State τ) (k : Nat) (vals : List ν)
+    (st : Stmt τ) (cs : List Routing.Bytes) (hc : Coherent s)
+    (hs : safeStep s (.use k vals : Step τ ν) = true) (hst : s.stmts[k]? = some st) (hpk : st.md.pkeys ≠ [])
+    (h : Routing.Spec.components enc st.md.cols vals st.md.pkeys = some cs) :
+    (step enc s (.use k vals)).1 = some (.res (.key (some (Token.routingKey cs)))) ∧
+    Coherent (step enc s (.use k vals)).2 := by
+  obtain ⟨ho, hc', _⟩ := step_safe enc s (.use k vals) hc hs
+  refine ⟨?_, hc'⟩
+  rw [ho]
+  simp only [Spec.stepOut, hst]
+  rw [C09_routing_from_metadata enc st.md st.schema vals cs hpk h]
+
 /-- EVERY history (safe or not) keeps the cache within `MaxEntries` (`MaxRoutingKeyInfo`; 0 = no limit) -/
 theorem C09_cache_bounded (enc : τ → ν → Routing.Enc) (steps : List (Step τ ν)) :
     ∀ s : State τ, (s.max ≠ 0 → s.lru.length ≤ s.max) →
